@@ -5,3 +5,7 @@ CHECKS["C14"] = dict(
 _PENDING = "check under construction in this round; not claimed until its harness confirms on the unchanged tree"
 for _p in ["C01","C02","C03","C04","C05","C06","C07","C08","C09","C10","C11","C12","C13","C15","C16","C17","C18","C19"]:
     NA[_p] = _PENDING
+CHECKS["C15"] = dict(
+    text="Crash-freedom of path evaluation: for each (document shape, path template) shard the real Processor.get_nodes (required and optional match) and exists() are executed symbolically on path TEXT built from symbolic indexes/slice bounds in [-6,6] and documents with symbolic integer leaves; any exception outside the YAMLPathException family on any feasible path is a counterexample, replayed concretely. Crossing shapes with templates under a solver finds the index/None/type pairings that examples miss.",
+    note="Shapes: vf/docs.py (28); templates: harness/qcommon.py (67); quick = 39 chosen pairs, thorough = full product. Leaves that the implementation stringifies or hashes are enumerated over small ranges (stated per query).")
+del NA["C15"]
